@@ -182,7 +182,44 @@ def gen_fields_types(r, tbl, depth, n, probe):
     return [gen_type(r, tbl, depth - 1, probe) for _ in range(n)]
 
 
+def gen_strategy_class(r, tbl: Table):
+    """a class whose Config.serialization_strategy registers functions under an origin class (list / dict / deque), an
+    Annotated alias and an exact type; every other field is a scalar, so no unintended position is captured"""
+    name = tbl.fresh("D")
+    regs = r.sample([("list", ("list", ("int",)), None, "list"),
+                     ("dict", ("dict", ("str",), ("bool",)), None, "dict"),
+                     ("deque", ("deque", ("str",)), None, "collections.deque"),
+                     ("ann", ("dict", ("str",), ("int",)), "m", "Annotated[Dict[str, int], 'm']"),
+                     ("annl", ("list", ("str",)), "tag", "Annotated[List[str], 'tag']")], r.randrange(1, 4))
+    if any(k == "ann" for k, *_ in regs) and any(k == "dict" for k, *_ in regs):
+        regs = [x for x in regs if x[0] != "dict"]         # the origin key would capture the Annotated field too
+    if any(k == "annl" for k, *_ in regs) and any(k == "list" for k, *_ in regs):
+        regs = [x for x in regs if x[0] != "list"]
+    fields = []
+    strat = []
+    for i, (k, t, tag, keysrc) in enumerate(regs):
+        rt = r.choice([("str",), ("int",), ("bool",)])
+        fn = f"_cs_{name}_{i}"
+        fields.append({"name": f"s{i}", "type": t, "default": None, "init": True, "alias_meta": None, "alias_ann": None,
+                       "alias_cfg": None, "alias": None, "ann_tag": tag,
+                       "ser": ("fn", rt, gen_value(r, rt, tbl, False, 2), fn), "ser_via": "config"})
+        strat.append((keysrc, fn))
+    for j in range(r.randrange(0, 3)):
+        fields.append({"name": f"p{j}", "type": r.choice([("int",), ("str",), ("bool",), ("leaf", "date")]), "default": None, "init": True,
+                       "alias_meta": None, "alias_ann": None, "alias_cfg": None, "alias": None})
+    for f in fields:
+        f.setdefault("ser", None)
+        f["nt_override"] = None
+        f["final"] = False
+    d = {"kind": "data", "name": name, "clsname": name, "fields": fields, "tvars": [],
+         "cfg": {"omit_none": False, "nt_as_dict": False, "via_dialect": False}, "strategies": strat}
+    tbl.add(d)
+    return d
+
+
 def gen_data(r, tbl: Table, depth, probe, clsname=None, generic=False):
+    if not generic and clsname is None and r.random() < 0.06:
+        return gen_strategy_class(r, tbl)
     name = tbl.fresh("D")
     n = r.randrange(0, 5)
     fields = []
@@ -613,6 +650,8 @@ def decl_src(d, tbl: Table) -> str:
             ts = ty_src(f["type"], tbl, nts)
             if f.get("alias_ann") is not None:
                 ts = f"Annotated[{ts}, Alias({f['alias_ann']!r})]"
+            if f.get("ann_tag") is not None:
+                ts = f"Annotated[{ts}, {f['ann_tag']!r}]"
             if f.get("final"):
                 ts = f"Final[{ts}]"
             opts = []
@@ -632,7 +671,8 @@ def decl_src(d, tbl: Table) -> str:
             if f.get("ser") is not None:
                 if f["ser"][0] == "fn":
                     lines.append(f"def {f['ser'][3]}(v) -> {ty_src(f['ser'][1], tbl, nts)}:\n    return {val_src(f['ser'][2])}")
-                    fo.append(f"serialize={f['ser'][3]}")
+                    if f.get("ser_via") != "config":
+                        fo.append(f"serialize={f['ser'][3]}")
                 else:
                     fo.append("serialize=pass_through")
             if fo:
@@ -649,6 +689,8 @@ def decl_src(d, tbl: Table) -> str:
             optlines.append("omit_none = True")
         if cfg.get("nt_as_dict"):
             optlines.append("namedtuple_as_dict = True")
+        if d.get("strategies"):
+            optlines.append("serialization_strategy = {" + ", ".join(f"{k}: {{'serialize': {fn}}}" for k, fn in d["strategies"]) + "}")
         if any_alias or optlines:
             body.append("    class Config(BaseConfig):")
             if any_alias:
